@@ -72,7 +72,9 @@ impl Run {
         let sc = self.sc.clone();
         let u = sc.users.clone();
         let nu = sc.native_users.clone();
-        let big = 1_000_000u128.max(sc.cfg.min_stake.min(1_000_000_000_000_000_000_000_000) * 10);
+        // every third deployment works with 18-decimals-sized amounts
+        let k: u128 = [1, 1_000_000_000, 1_000_000_000_000_000_000][(sc.cfg.salt / 7 % 3) as usize];
+        let big = 1_000_000u128.max(sc.cfg.min_stake.min(1_000_000_000_000_000_000) * 10) * k + (k > 1) as u128 * 12_345;
         self.step(sc.resume(0, 0, 0));
         for x in &u {
             self.step(Op::BankMint { addr: x.clone(), denom: sc.s.clone(), amount: big * 100 });
@@ -225,7 +227,9 @@ impl Run {
     pub fn exit_scenario(&mut self) {
         let sc = self.sc.clone();
         let u = sc.users.clone();
-        let big = 1_000_000u128.max(sc.cfg.min_stake.min(1_000_000_000_000_000_000_000_000) * 10);
+        // every third deployment works with 18-decimals-sized amounts
+        let k: u128 = [1, 1_000_000_000, 1_000_000_000_000_000_000][(sc.cfg.salt / 7 % 3) as usize];
+        let big = 1_000_000u128.max(sc.cfg.min_stake.min(1_000_000_000_000_000_000) * 10) * k + (k > 1) as u128 * 12_345;
         self.step(sc.resume(0, 0, 0));
         for x in u.iter().take(3) {
             self.step(Op::BankMint { addr: x.clone(), denom: sc.s.clone(), amount: big * 3 });
@@ -235,8 +239,8 @@ impl Run {
         self.relay_all("ack");
         let coll = self.obs.collector();
         let ch = self.obs.channel();
-        self.step(Op::NativeMint { addr: coll.clone(), amount: 999 });
-        self.step(sc.reward(&coll, &ch, 999));
+        self.step(Op::NativeMint { addr: coll.clone(), amount: 999 * k });
+        self.step(sc.reward(&coll, &ch, 999 * k));
         self.relay_all("ack");
         for x in u.iter().take(2) {
             let bal = self.sc.w.bal(x, &sc.t);
@@ -245,8 +249,8 @@ impl Run {
             }
         }
         // every LST in existence is now queued for unstaking, but it still exists: rewards are processed
-        self.step(Op::NativeMint { addr: coll.clone(), amount: 321 });
-        self.step(sc.reward(&coll, &ch, 321));
+        self.step(Op::NativeMint { addr: coll.clone(), amount: 321 * k });
+        self.step(sc.reward(&coll, &ch, 321 * k));
         self.relay_all("ack");
         let due = self.obs.pending.next_time_s;
         let now = self.sc.w.now_s();
@@ -277,6 +281,23 @@ impl Run {
         self.step(Op::NativeBurn { addr: coll.clone(), amount: 500 });
         self.step(sc.stake(&u[2], big, None, None, None));
         self.relay_all("ack");
+        // acknowledgements and timeouts keep arriving while the breaker is tripped
+        {
+            let na = sc.native_users[0].clone();
+            let amt = sc.cfg.min_stake.min(1_000_000_000_000_000_000_000_000).max(1000) * 3;
+            self.step(sc.stake(&u[2], amt, Some(&na), Some(true), None));
+            self.step(sc.breaker(&sc.admin));
+            self.relay_all(if sc.cfg.salt % 2 == 0 { "err" } else { "timeout_or_err" });
+            if self.obs.state_ok {
+                let (n, l, r) = (self.obs.n, self.obs.l, self.obs.rewards);
+                self.step(sc.resume(n, l, r));
+            } else {
+                self.step(sc.resume(0, 0, 0));
+            }
+            self.step(sc.recover(&u[0], None, None, None));
+            self.step(sc.recover(&u[1], Some(true), None, Some(&na)));
+            self.relay_all("ack");
+        }
         // more than one page of failed transfers for one receiver (every other deployment: the minted
         // LST goes to a native-chain recipient, so two receivers and two denoms are in play)
         let na = sc.native_users[0].clone();
@@ -317,6 +338,36 @@ impl Run {
         }
         self.step(sc.recover(&u[0], None, None, None)); // nothing left: must be refused
         self.relay_all("ack");
+        // dust at a rate below one (a slash booked by the admin): a one-unit request whose expected amount
+        // rounds to zero is still a request; its batch is submitted, waits, is completed by a delivery, is paid
+        if self.obs.state_ok && self.obs.l > 10 && self.sc.w.bal(&u[2], &sc.t) > 1 {
+            let (n, l, r) = (self.obs.n, self.obs.l, self.obs.rewards);
+            self.step(sc.breaker(&sc.admin));
+            self.step(sc.resume((l / 3).max(1), l, r));
+            self.step(sc.unstake(&u[2], 1));
+            let due = self.obs.pending.next_time_s;
+            let now = self.sc.w.now_s();
+            if due > now {
+                self.step(Op::Advance { secs: due - now });
+            }
+            self.step(sc.submit(&u[0]));
+            let b = self.obs.batches.iter().filter(|b| b.status == "submitted").last().cloned();
+            if let Some(b) = b {
+                self.step(sc.withdraw(&u[2], b.id)); // too early: must be refused
+                let now = self.sc.w.now_s();
+                if b.next_time_s > now {
+                    self.step(Op::Advance { secs: b.next_time_s - now });
+                }
+                let staker = self.obs.staker();
+                self.step(Op::NativeMint { addr: staker.clone(), amount: 2 });
+                self.step(sc.deliver(&staker, &ch, b.id, b.expected + 2));
+                self.step(sc.withdraw(&u[2], b.id));
+                self.step(sc.withdraw(&u[2], b.id)); // second time: must be refused
+            }
+            self.step(sc.breaker(&sc.admin));
+            self.step(sc.resume(n, self.obs.l, r));
+            self.model.count("dust_scenario");
+        }
         // reward counter at the edge of its range (an accounting correction by the admin): a payment
         // is then either refused or counted in full. Not in C16 runs: totals above 10^27 are outside
         // that property's bounds and the refusal is an arithmetic abort.
@@ -376,6 +427,15 @@ impl Run {
 }
 
 pub fn profile_for(prop: &str, rng: &mut Rng) -> Profile {
+    let mut p = profile_for_inner(prop, rng);
+    // every third history works with 18-decimals-sized amounts whatever its profile
+    if rng.chance(1, 3) {
+        p.max_amount = 1_000_000_000_000_000_000_000_000;
+    }
+    p
+}
+
+fn profile_for_inner(prop: &str, rng: &mut Rng) -> Profile {
     match prop {
         "C07" => Profile::ibc_heavy(),
         "C05" | "C06" | "C17" => Profile::batches(),
